@@ -29,6 +29,12 @@
 //!                dns/sweep.rs (C19/foreign-record/not-ignored/<position>); with no foreign record
 //!                at all, and for the good responses used as controls (large, after an idle gap,
 //!                after ARP / back-pressure is lifted), C19/good-response/not-completed/<kind>.
+//!  late polls  - "polled no later than poll_at" is not a premise of the timing clauses as far as
+//!                lateness only delays things: in the *-late-poll configurations the explorer lets one
+//!                (thorough: two) polls per history come 1 s or 3 s AFTER poll_at. A late poll may
+//!                delay, never shorten, a server's window: the 10 s window clauses apply unchanged,
+//!                the schedule comparisons allow each instant to be later by at most the lateness
+//!                accumulated before it, the termination bound is extended by the total lateness.
 //!  termination - while a query is pending `poll_at` is Some; polling exactly at `poll_at` every
 //!                query reaches Ok/Failed within servers x (10 s + 10 s max back-off) + 1 s of
 //!                simulated time; every poll returns (device-call budget + wall-clock watchdog) and
@@ -1725,6 +1731,7 @@ pub fn run(tier: Tier) -> i32 {
     watch::start_monitor(tier.name());
     let mut rep = Report::new("C19", tier);
     rep.assumptions.push("IPv4 transport for responses (mDNS queries also leave over IPv6 and are observed); one dns::Socket; queries started at t=0. Links: Medium::Ip where every frame gets out; Medium::Ip with device back-pressure (tx_budget 0, lifted/re-imposed by the explorer; while smoltcp asks to be polled 'now' one poll per simulated second); Medium::Ethernet with servers on-link or behind a gateway whose ARP is never answered / answered by the explorer not before 3 s / at any time. Timing clauses only on the unimpaired link; matching and termination clauses everywhere".into());
+    rep.assumptions.push("late polls: in the *-late-poll configurations one (thorough: two) polls per history come 1 s or 3 s after poll_at; every other poll is exactly at poll_at".into());
     rep.assumptions.push("time advances only to Interface::poll_at (statement: 'polled according to poll_at'); bound = servers x (10 s + 10 s max back-off) + 1 s from dns.rs constants".into());
     rep.assumptions.push("'records for other names are ignored' is judged as an obligation: a matching response carrying the wanted records must complete the query with exactly those addresses (coverage.answer_section_sweep); good responses that are not accepted (coverage.positive_controls) are verdicts too, not machinery errors".into());
     rep.assumptions.push("matching oracle uses its own tolerant DNS parser (dns/msg.rs); lenient readings are listed in coverage.lenient_readings and counted in coverage.observations".into());
